@@ -3,7 +3,7 @@ from __future__ import annotations
 
 import ast
 
-from ..astutil import attr_chain, call_method, enum_member, short, src, ancestors
+from ..astutil import ancestors, attr_chain, call_method, enum_member, short, src
 from ..linear import Normaliser, Sym
 from ..model import walk_local, AnalysisError
 from ..report import Ctx
@@ -209,7 +209,10 @@ def check(ctx: Ctx) -> None:
                   construct="circle-of-fifths annotation is not derived from the token's PITCH field", message=short(ce), file=fg.file, node=ce or fg.node)
         # the part consulted is the PITCH part
         gens = [g for s in pb for g in ast.walk(s) if isinstance(g, ast.GeneratorExp)]
-        ok = any(enum_member(c.comparators[0], "TokenisationPrefixes") == "PITCH" for g in gens for c in ast.walk(g) if isinstance(c, ast.Compare))
+        ok = any(enum_member(c.comparators[0], "TokenisationPrefixes") == "PITCH" and isinstance(c.ops[0], ast.Eq) and len(c.ops) == 1
+                 and isinstance(c.left, ast.Subscript) and isinstance(c.left.slice, ast.Constant) and c.left.slice.value == 0
+                 and not any(isinstance(a, ast.UnaryOp) and isinstance(a.op, ast.Not) for a in ancestors(c) if a in list(ast.walk(g)))
+                 for g in gens for c in ast.walk(g) if isinstance(c, ast.Compare))
         ctx.check(ok, "PITCH", "get_info: the PITCH part of a fused token is looked up by its prefix", function=fg.qualname,
                   construct="get_info does not select the PITCH part by prefix", message="", file=fg.file, node=fg.node)
     pd = next((b for m, t, b in chain_d if m == "PITCH"), None)
